@@ -56,6 +56,7 @@ type Unit struct {
 	epochAlloc map[int]Term // allocation counter at the time a heap epoch began
 	havocAlloc Term         // allocation counter valid for the havoc constants being created
 	pendingAxiom map[string]pendingTyping
+	sentinels  map[string]Val
 	specDepth  int
 	interest []Term // named inputs for models: name -> term
 	interestNames []string
@@ -64,7 +65,7 @@ type Unit struct {
 func NewUnit(name string, mode Mode, fset *token.FileSet) *Unit {
 	u := &Unit{Name: name, Mode: mode, declared: map[string]Sort{}, kindSeq: map[string]int{},
 		Assumptions: map[string]bool{}, strLits: map[string]Term{}, typeIDs: map[string]int{}, fset: fset,
-		subFns: map[string]bool{}, epochAlloc: map[int]Term{}, pendingAxiom: map[string]pendingTyping{}}
+		subFns: map[string]bool{}, epochAlloc: map[int]Term{}, pendingAxiom: map[string]pendingTyping{}, sentinels: map[string]Val{}}
 	return u
 }
 
@@ -608,6 +609,9 @@ func (u *Unit) Preamble() string {
 		b.WriteString("(assert (forall ((s Str)) (! (>= (slen s) 0) :pattern ((slen s)))))\n")
 		b.WriteString("(assert (forall ((a Str) (b Str)) (! (= (slen (scat a b)) (+ (slen a) (slen b))) :pattern ((scat a b)))))\n")
 		b.WriteString("(assert (forall ((s Str) (i Int)) (! (and (<= 0 (sbyte s i)) (<= (sbyte s i) 255)) :pattern ((sbyte s i)))))\n")
+		b.WriteString("(assert (forall ((a Str) (b Str)) (! (=> (= (slen a) 0) (= (scat a b) b)) :pattern ((scat a b)))))\n")
+		b.WriteString("(declare-fun sbytes (Str) (Array Int Int))\n(declare-fun mkstr ((Array Int Int) Int Int) Str)\n")
+		b.WriteString("(assert (forall ((s Str)) (! (= (mkstr (sbytes s) 0 (slen s)) s) :pattern ((sbytes s)))))\n")
 	}
 	b.WriteString("(declare-fun root (Int) Int)\n")
 	b.WriteString("(declare-fun kind (Int) Int)\n")
@@ -641,6 +645,16 @@ func (u *Unit) StrLit(s string) Term {
 		}
 	}
 	return t
+}
+
+// TypeIDByName: id of a dynamic type known only by name (unexported types of other packages).
+func (u *Unit) TypeIDByName(k string) Term {
+	id, ok := u.typeIDs[k]
+	if !ok {
+		id = len(u.typeIDs) + 1
+		u.typeIDs[k] = id
+	}
+	return IntLit(int64(id))
 }
 
 // TypeID gives a stable non-zero id per dynamic type (interface tags).
